@@ -551,7 +551,13 @@ def run(prog, rep, tier):
     Sp = Sym(prog)
     sp, _ = run_function(Sp, fp)
     ret0 = T(sp.ret)
-    if list(fp.params) != ["interventions_dict"] or ret0[0] == "tuple":
+    import ast as _ast
+    extra = list(fp.params)[1:]
+    one_arg_calls = all(len(n.args) + len(n.keywords) == 1 for n in _ast.walk(f.node) if isinstance(n, _ast.Call) and
+                        (getattr(n.func, "id", None) or getattr(n.func, "attr", None)) == "_parse_interventions")
+    # further parameters that have a default and that no caller passes leave the interface as it is
+    same_interface = list(fp.params)[:1] == ["interventions_dict"] and all(p_ in fp.defaults for p_ in extra) and (not extra or one_arg_calls)
+    if not same_interface or ret0[0] == "tuple":
         # the private parser is a unit with a contract between it and LGANM.sample (one array, rows [target, mean, variance]); with another signature or
         # another kind of result that contract is a different one, which these rules do not know
         rep.unk("LAYOUT.producer", fwhere(fp), "_parse_interventions%s returns %s: not the (interventions_dict) -> array-of-rows interface the layout rules read" % (
